@@ -195,7 +195,7 @@ def gen_rule(rng, kind=None, kinds=None):
                                    # the comments the tool itself writes on rules built from log records
                                    " file_inherit", " no new privs", " optional: see the docs", " file_inherit (from the parent)",
                                    # free text that merely mentions a marker (8 such comments in the shipped tree), unbalanced brackets
-                                   " Not in a subprofile because of no new privs", " TODO: confine (see the notes below", " 1) main configuration", " :(", " ends with a brace {"])
+                                   " Not in a subprofile because of no new privs", " TODO: confine (see the notes below", " 1) main configuration", " :(", " ends with a brace {", " see issue #12 upstream", " #hashtag"])
     return r
 
 
